@@ -904,7 +904,7 @@ func main() {
 	}
 	ctx.Assume("the random / coverage-guided part of the quantifier is replaced by the exhaustive bounded spaces 1-3 (DESIGN.md C05)")
 	ctx.Assume("allocation is measured with runtime/metrics (/gc/heap/allocs:bytes: large objects immediately, small ones at span granularity) in single-threaded worker processes; a suspicious case is re-measured exactly with MemStats.TotalAlloc before it is reported; bound 64 KiB + 256 x len(input)")
-	maxLen := ctx.Pick(5, 6)
+	maxLen := ctx.Pick(5, 7)
 	ctx.Jobs("strings-track-body", len(alphabet), func(j int) { withCanary("strings-track-body", func() { strings1(j, maxLen) }) })
 	ctx.Jobs("strings-whole-file", len(alphabet)+7, func(j int) { withCanary("strings-whole-file", func() { strings2(j, 4) }) })
 	ctx.Jobs("header-fields", 16, func(j int) { withCanary("header-fields", func() { headerFields(j, 16) }) })
@@ -919,7 +919,7 @@ func main() {
 	ctx.Sample(map[string]interface{}{"track-body": "00 FF 51 FF 7F", "check": "no panic, terminates, (value,nil)|(nil,err), allocation <= 64KiB+256*len"})
 	ctx.Guard(ctx.GetInt("accepted") > 1000 && ctx.GetInt("rejected") > 1000, "outcomes not diverse: accepted=%d rejected=%d", ctx.GetInt("accepted"), ctx.GetInt("rejected"))
 	ctx.Guard(ctx.NontrivialCount() > 1000, "too few accepted proper prefixes: %d", ctx.NontrivialCount())
-	ctx.Finish("exhaustive: byte strings up to length 5/6 over a 16-byte alphabet as track body, up to 4 over alphabet+magic letters as whole file; all 65536 values of each header field; declared x actual track counts; explicit huge declared lengths; all 255 single-byte substitutions at every offset of the representative files and alphabet pairs on the five smallest; every truncation point of every generated family file; non-trivial = proper prefixes that were accepted (prefix oracle applied)")
+	ctx.Finish("exhaustive: byte strings up to length 5/7 over a 16-byte alphabet as track body, up to 4 over alphabet+magic letters as whole file; all 65536 values of each header field; declared x actual track counts; explicit huge declared lengths; all 255 single-byte substitutions at every offset of the representative files and alphabet pairs on the five smallest; every truncation point of every generated family file; non-trivial = proper prefixes that were accepted (prefix oracle applied)")
 }
 
 func replay() {
